@@ -77,7 +77,10 @@ func c11Writers() []c11Writer {
 		{name: "flip(A:v1->v2->v1)", ops: []func(*PebbleScanner, *storeProbes){add("A", 2), add("A", 1)}},
 		{name: "delete+readd(A)", ops: []func(*PebbleScanner, *storeProbes){
 			func(s *PebbleScanner, sp *storeProbes) { s.DeleteSignature("A") },
-			func(s *PebbleScanner, sp *storeProbes) { a := c11SigV(sp, "A", 1); s.AddSignatures([]*detection.Signature{&a}) }}},
+			func(s *PebbleScanner, sp *storeProbes) {
+				a := c11SigV(sp, "A", 1)
+				s.AddSignatures([]*detection.Signature{&a})
+			}}},
 		{name: "rebuild", ops: []func(*PebbleScanner, *storeProbes){func(s *PebbleScanner, sp *storeProbes) { s.RebuildIndexes() }}},
 		{name: "settings(0.5,0.05)", settings: true, ops: []func(*PebbleScanner, *storeProbes){
 			func(s *PebbleScanner, sp *storeProbes) { s.SetThreshold(0.5) },
